@@ -266,3 +266,32 @@ Lemma gen_sim_upkeep_ids : forall x t seen,
   | _ => first_ids t seen
   end.
 Proof. intros. cbn [first_ids]. unfold g_sim_upkeep_ids_body. destruct (memN x seen); reflexivity. Qed.
+
+(* ---------------- DecodeSimulationPlan ---------------- *)
+(* one event of the plan (decoding succeeding): appended to the list of its type, a generate event without `expected`
+   getting the default first (2); an unknown type tag is an error - the model's decode_step *)
+Lemma gen_sim_plan_decode_event : forall p e,
+  decode_step (Some p) (Some e) =
+  match g_sim_plan_decode_event false (Z.of_N (e_type e)) 1 2 3 false false false (N.eqb (e_expected e) 0) with
+  | ([1], Fall) => Some (mkPlan (p_confs p ++ [e]) (p_gens p) (p_logs p))
+  | ([2; 3], Fall) => Some (mkPlan (p_confs p) (p_gens p ++ [mkEv (e_type e) 1%N (e_data e)]) (p_logs p))
+  | ([3], Fall) => Some (mkPlan (p_confs p) (p_gens p ++ [e]) (p_logs p))
+  | ([4], Fall) => Some (mkPlan (p_confs p) (p_gens p) (p_logs p ++ [e]))
+  | _ => None
+  end.
+Proof.
+  intros p e. unfold decode_step, g_sim_plan_decode_event, default_expected.
+  rewrite (ofN_eqb_1 (e_type e)). change 2 with (Z.of_N 2). change 3 with (Z.of_N 3). rewrite !ofN_eqb.
+  destruct (N.eqb (e_type e) 1); [reflexivity|].
+  destruct (N.eqb (e_type e) 2).
+  - destruct e as [ty ex d]. cbn. destruct (N.eqb_spec ex 0) as [->|]; reflexivity.
+  - destruct (N.eqb (e_type e) 3); reflexivity.
+Qed.
+
+(* every decoding failure returns an error before anything is appended *)
+Lemma gen_sim_plan_decode_errors : forall ty a b c d,
+  g_sim_plan_decode_event true ty 1 2 3 a b c d = ([], RetO 1) /\
+  g_sim_plan_decode_event false 1 1 2 3 true b c d = ([], RetO 2) /\
+  g_sim_plan_decode_event false 2 1 2 3 a true c d = ([], RetO 3) /\
+  g_sim_plan_decode_event false 3 1 2 3 a b true d = ([], RetO 4).
+Proof. intros. repeat split. Qed.
